@@ -41,6 +41,10 @@ STRENGTHENED = {
     "C11-r4": "an enabled endpoint HAS a live health-check loop and the view follows its upstream (EndpointLife.tla upstream health flips, Restart=FALSE refuted; proxyh pokelive; readiness / probe waits became observations)",
     "C12-r4": "endpoints handed from one cluster to another / disabled (AuthEndpoints.tla, pinned review client refuted; three upstreams, a new token per request)",
     "C18-r4": "the allocated sum is judged against the quotas on record (SumOK); saturated survivors",
+    "C02-r5": "sibling impersonation requests (one coordinate of the access review differs from a denied item) through the gateway's REAL SubjectAccessReview authorizer and its decision cache",
+    "C06-r5": "a second schema whose name differs only in case, with a bucket of its own",
+    "C08-r5": "the server's own time-out sweep as a removal (C18 machinery, capacity observations)",
+    "C10-r5": "an OBJECT whose own name is a server name of another cluster (refused, then deleted); a server name may be another cluster's own name",
     "C20-r4": "the kinds served with a status subresource and their strategies are READ from the storage map the control plane installs (real NewRESTStorage wiring), not transcribed",
 }
 rows = []
